@@ -399,6 +399,86 @@ fn run_direct_dna_u8(sc: &Direct, o: &mut Outcome) {
     alloc::end_run();
 }
 
+/// Same op list on a 16-column layout (the SSE2 lane count): generic and SSE2 pipelines only.
+fn run_direct_c16<A: Alphabet>(sc: &Direct, o: &mut Outcome) {
+    use lightmotif::num::U16;
+    let letters = A::as_str().as_bytes();
+    alloc::begin_run(sc.alloc);
+    let mut enc = EncodedSequence::<A>::new(Vec::new());
+    let mut striped: StripedSequence<A, U16> = StripedSequence::default();
+    let mut pssm = random_pssm::<A>(1, 1);
+    let mut scores: StripedScores<f32, U16> = StripedScores::empty();
+    for (i, op) in sc.ops.iter().enumerate() {
+        let r: Result<(), Panicked> = match *op {
+            DOp::Encode { be, len, seed, .. } => sut(|| {
+                let mut pr = Prng::new(seed);
+                let text: Vec<u8> = (0..len).map(|_| *pr.pick(letters)).collect();
+                enc = match be {
+                    Be::Sse2 | Be::Avx2 => Pipeline::<A, Sse2>::sse2().unwrap().encode(&text),
+                    _ => Pipeline::<A, Generic>::generic().encode(&text),
+                }
+                .expect("HARNESS: valid text");
+                let s: &[A::Symbol] = enc.as_ref();
+                striped = Pipeline::<A, Generic>::generic().stripe(s);
+            }),
+            DOp::StripeInto { .. } => sut(|| {
+                let s: &[A::Symbol] = enc.as_ref();
+                Pipeline::<A, Generic>::generic().stripe_into(s, &mut striped);
+            }),
+            DOp::Configure { width, seed } => sut(|| {
+                pssm = random_pssm::<A>(width.max(1), seed);
+                striped.configure(&pssm);
+            }),
+            DOp::Score { be, sub } => sut(|| {
+                striped.configure(&pssm);
+                let rows = striped.matrix().rows() - striped.wrap();
+                let (a, b) = match sub {
+                    None => (0, rows),
+                    Some((a, b)) => {
+                        let (a, b) = if rows == 0 { (0, 0) } else { (a % (rows + 1), b % (rows + 1)) };
+                        (a.min(b), a.max(b))
+                    }
+                };
+                match be {
+                    Be::Generic => Pipeline::<A, Generic>::generic().score_rows_into(&pssm, &striped, a..b, &mut scores),
+                    _ => Pipeline::<A, Sse2>::sse2().unwrap().score_rows_into(&pssm, &striped, a..b, &mut scores),
+                }
+            }),
+            DOp::Max { be } | DOp::Argmax { be } => sut(|| {
+                let _ = match be {
+                    Be::Generic => (Maximum::<f32, U16>::max(&Pipeline::<A, Generic>::generic(), &scores), Maximum::<f32, U16>::argmax(&Pipeline::<A, Generic>::generic(), &scores)),
+                    _ => (Maximum::<f32, U16>::max(&Pipeline::<A, Sse2>::sse2().unwrap(), &scores), Maximum::<f32, U16>::argmax(&Pipeline::<A, Sse2>::sse2().unwrap(), &scores)),
+                };
+            }),
+            DOp::Threshold { t_bits, .. } => sut(|| {
+                let _ = Threshold::<f32, U16>::threshold(&Pipeline::<A, Sse2>::sse2().unwrap(), &scores, f32::from_bits(t_bits));
+            }),
+            DOp::CloneAll => sut(|| {
+                let s2 = striped.clone();
+                let sc2 = scores.clone();
+                striped = s2;
+                scores = sc2;
+            }),
+            _ => Ok(()),
+        };
+        if let Err(p) = r {
+            if panic_is_memory_signal(&p) {
+                alloc::end_run();
+                o.violate(Violation::new(p.class(), format!("op={},C=16", dop_name(op)), format!("16-column pass, op #{} {:?}: {}", i, op, p.msg)));
+                return;
+            }
+            o.probe("direct-call-panicked(ignored:not-a-memory-signal)");
+        }
+    }
+    let _ = sut(move || {
+        drop(enc);
+        drop(striped);
+        drop(pssm);
+        drop(scores);
+    });
+    alloc::end_run();
+}
+
 fn gen_len(r: &mut Prng) -> usize {
     match r.below(12) {
         0 => 0,
@@ -561,10 +641,16 @@ impl Sim for MemSim {
                 });
                 if d.protein {
                     run_direct_typed::<Protein>(d, &mut o, false);
+                    if !o.failed() {
+                        run_direct_c16::<Protein>(d, &mut o);
+                    }
                 } else {
                     run_direct_typed::<Dna>(d, &mut o, true);
                     if !o.failed() {
                         run_direct_dna_u8(d, &mut o);
+                    }
+                    if !o.failed() {
+                        run_direct_c16::<Dna>(d, &mut o);
                     }
                 }
             }
